@@ -227,45 +227,47 @@ type tok =
 
 type token = span * tok
 
+val is_z : n -> bool
+
+val is_break : n -> bool
+
+val is_breakz : n -> bool
+
+val is_blank : n -> bool
+
+val is_blank_or_breakz : n -> bool
+
+val is_digit : n -> bool
+
+val is_alpha : n -> bool
+
+val is_hex : n -> bool
+
+val as_hex : n -> n
+
+val is_flow : n -> bool
+
+val is_bom : n -> bool
+
+val is_yaml_non_break : n -> bool
+
+val is_yaml_non_space : n -> bool
+
+val is_anchor_char : n -> bool
+
+val is_word_char : n -> bool
+
+val is_uri_char : n -> bool
+
+val is_tag_char : n -> bool
+
+val sIMPLE_KEY_MAX : n
+
+val fLOW_LEVEL_MAX : n
+
+val vERSION_DIGITS_MAX : n
+
 type chr = n
-
-val is_z : chr -> bool
-
-val is_break : chr -> bool
-
-val is_breakz : chr -> bool
-
-val is_blank : chr -> bool
-
-val is_blank_or_breakz : chr -> bool
-
-val is_digit : chr -> bool
-
-val is_alpha : chr -> bool
-
-val is_hex : chr -> bool
-
-val as_hex : chr -> n
-
-val is_flow : chr -> bool
-
-val is_bom : chr -> bool
-
-val is_yaml_non_break : chr -> bool
-
-val is_yaml_non_space : chr -> bool
-
-val is_anchor_char : chr -> bool
-
-val is_word_char : chr -> bool
-
-val mem : chr -> chr list -> bool
-
-val uri_extra : chr list
-
-val is_uri_char : chr -> bool
-
-val is_tag_char : chr -> bool
 
 type 'a outcome =
 | Ok of 'a
@@ -515,13 +517,17 @@ val s_TAG : chr list
 
 val scan_directive : 'a1 inputOps -> nat -> ('a1, token) m
 
+val escape_table : (n * n) list
+
+val code_length_table : (n * nat) list
+
 val nls : n -> chr list -> chr list
 
 val col_lt_indent : ('a1, bool) m
 
-val escape_table : (chr * chr) list
-
 val assocc : chr -> (chr * chr) list -> chr option
+
+val assocn : chr -> (chr * nat) list -> nat
 
 val code_length : chr -> nat
 
